@@ -32,7 +32,10 @@ func slowPeer(t *testing.T, run *evid.Run) map[string]any {
 		occupied int
 		skip     bool
 	}
-	one := func(stallFirst bool, j int) (o out) {
+	// extraChange: while the peer is still not reading and the unsubscription is
+	// queued for it, the node subscribes to ANOTHER channel (the next evaluation
+	// produces another subscription change)
+	one := func(stallFirst bool, j int, extraChange bool) (o out) {
 		synctest.Test(t, func(t *testing.T) {
 			ctx, cancel := context.WithCancel(context.Background())
 			ps, err := floodsub.NewFloodSub(ctx, discardLogger(), nil, &floodsub.Config{})
@@ -96,6 +99,13 @@ func slowPeer(t *testing.T, run *evid.Run) map[string]any {
 				sub.Release()
 				settle()
 				settle()
+				if extraChange {
+					if _, err := ps.AddSubscription(ctx, keys[0].Priv, "ch-other"); err != nil {
+						evid.Fatal("AddSubscription: %v", err)
+					}
+					settle()
+					settle()
+				}
 				w.SetStall(0, false)
 				settle()
 				settle()
@@ -110,9 +120,16 @@ func slowPeer(t *testing.T, run *evid.Run) map[string]any {
 		return o
 	}
 	for _, stallFirst := range []bool{false, true} {
-		probe := one(stallFirst, 1<<30) // measures the free space only
-		for j := 0; j <= probe.free; j++ {
-			o := one(stallFirst, j)
+		probe := one(stallFirst, 1<<30, false) // measures the free space only
+		for jj := 0; jj <= 2*probe.free+1; jj++ {
+			j, extra := jj, false
+			if jj > probe.free {
+				j, extra = jj-probe.free-1, true
+			}
+			if extra && j > probe.free-1 {
+				continue // keep one slot for the extra announcement: nothing may block the node
+			}
+			o := one(stallFirst, j, extra)
 			if o.skip {
 				evid.Fatal("slow peer: free space changed between runs (%d vs %d)", probe.free, o.free)
 			}
@@ -123,6 +140,9 @@ func slowPeer(t *testing.T, run *evid.Run) map[string]any {
 			place := "after-attach"
 			if stallFirst {
 				place = "before-attach"
+			}
+			if extra {
+				place += ", then a subscription to another channel while still stalled"
 			}
 			if len(o.told) == 0 || o.told[len(o.told)-1] {
 				run.Violation("unsubscribe-not-announced/slow-peer", fmt.Sprintf("peer P stopped reading (%s); the node subscribed to %s, published %d message(s) (send queue of P: %d of %d slots used), released its only subscription, the sweep ran, P resumed reading: at quiescence the announcements P received for %s are %v", place, ch1, j, o.occupied, o.occupied+probe.free-j, ch1, o.told),
@@ -136,7 +156,7 @@ func slowPeer(t *testing.T, run *evid.Run) map[string]any {
 		evid.Fatal("slow peer: vacuous (%d cases, %d with a full queue)", cases, full)
 	}
 	return map[string]any{"cases": cases, "cases_with_full_send_queue_at_release": full, "unsubscriptions_received": unsubs,
-		"space": "stall placement {before, after attach} x messages published while stalled 0..free slots of the peer's send queue"}
+		"space": "stall placement {before, after attach} x messages published while stalled 0..free slots of the peer's send queue x {release only, release then a subscription to another channel while still stalled}"}
 }
 
 // replacedStream: a second stream for the SAME (peer, link) tuple is attached
@@ -273,4 +293,90 @@ func replacedStream(t *testing.T, run *evid.Run) map[string]any {
 	}
 	return map[string]any{"cases": cases, "cases_in_which_the_newest_stream_was_told_subscribe": told,
 		"space": "old stream {healthy, stuck in a write} x node subscribes {before, after} the second attach x peer closes the old stream {never, before, after the release} x {settle, no settle} between attach and close"}
+}
+
+// windowOrders: a subscription is taken and released, and a peer session is
+// attached, in every order and with every placement of router evaluations
+// (settle points) between the three steps. At quiescence the node holds no
+// subscription to ch1: the last thing the peer was told about ch1 must not be
+// Subscribe=true (it may never have been told anything).
+func windowOrders(t *testing.T, run *evid.Run) map[string]any {
+	steps := [][]string{{"sub", "rel", "att"}, {"sub", "att", "rel"}, {"att", "sub", "rel"}}
+	cases, toldTrue := 0, 0
+	for _, order := range steps {
+		for mask := 0; mask < 4; mask++ { // settle after step 1 / after step 2
+			var told []bool
+			synctest.Test(t, func(t *testing.T) {
+				ctx, cancel := context.WithCancel(context.Background())
+				ps, err := floodsub.NewFloodSub(ctx, discardLogger(), nil, &floodsub.Config{})
+				if err != nil {
+					evid.Fatal("NewFloodSub: %v", err)
+				}
+				go func() { _ = ps.Execute(ctx) }()
+				settle := func() { time.Sleep(250 * time.Millisecond); synctest.Wait() }
+				settle()
+				w := ref.NewWire()
+				df := &ref.Deframer{}
+				w.Tap = func(from int, b []byte) {
+					if from != 0 {
+						return
+					}
+					for _, fr := range df.Push(b) {
+						pkt := &floodsub.Packet{}
+						if pkt.UnmarshalVT(fr) != nil {
+							continue
+						}
+						for _, so := range pkt.GetSubscriptions() {
+							if so.GetChannelId() == ch1 {
+								told = append(told, so.GetSubscribe())
+							}
+						}
+					}
+				}
+				P := keys[1]
+				lnk := &fakes.MountedLink{UUID: 1, Local: keys[0].ID, Remote: P.ID}
+				var sub pubsub.Subscription
+				for i, st := range order {
+					switch st {
+					case "sub":
+						sub, err = ps.AddSubscription(ctx, keys[0].Priv, ch1)
+						if err != nil {
+							evid.Fatal("AddSubscription: %v", err)
+						}
+					case "rel":
+						sub.Release()
+					case "att":
+						ps.AddPeerStream(pubsub.PeerLinkTuple{PeerID: P.ID, LinkID: 1}, false, &fakes.MountedStream{Strm: w.End(0), Proto: floodsub.FloodSubID, Peer: P.ID, Link: lnk})
+					}
+					if i < 2 && mask&(1<<uint(i)) != 0 {
+						settle()
+					}
+				}
+				settle()
+				settle()
+				cancel()
+				w.End(0).Close()
+				w.End(1).Close()
+				synctest.Wait()
+				floodsub.VerifStopJanitor(ps)
+			})
+			cases++
+			for _, b := range told {
+				if b {
+					toldTrue++
+					break
+				}
+			}
+			if len(told) > 0 && told[len(told)-1] {
+				desc := fmt.Sprintf("steps %v, router evaluation after step 1: %v, after step 2: %v", order, mask&1 != 0, mask&2 != 0)
+				run.Violation("unsubscribe-not-announced/within-one-evaluation", fmt.Sprintf("the node's only subscription to %s was taken and released and a peer session attached (%s); at quiescence the node holds no subscription, but the announcements the peer received for %s are %v", ch1, desc, ch1, told),
+					map[string]any{"order": order, "settle_mask": mask, "told": told})
+			}
+		}
+	}
+	if toldTrue == 0 {
+		evid.Fatal("window orders: vacuous (the peer was never told about the channel in %d cases)", cases)
+	}
+	return map[string]any{"cases": cases, "cases_in_which_the_peer_was_told_subscribe": toldTrue,
+		"space": "orders {subscribe, release, attach | subscribe, attach, release | attach, subscribe, release} x router evaluation {yes, no} after the first and after the second step"}
 }
